@@ -79,7 +79,10 @@ def one(ctx, rng, k):
             if r.exit_code != 0:
                 raise RuntimeError(f'CLI exit {r.exit_code}: {r.exception!r}')
         else:
-            with SgzConverter(sgz) as c:
+            ckw = [{}, {'preload': True}, {'chunk_cache_size': 1}][(k // 3) % 3]     # (the exporter's reader options)
+            desc['converter_options'] = ckw
+            ctx.stats['exporter_preload'] += int(bool(ckw.get('preload')))
+            with SgzConverter(sgz, **ckw) as c:
                 # the exporting object may have been used for header look-ups before (either padding mode)
                 pre = (k // 4) % 4
                 desc['reads_before_export'] = ['none', 'gen_trace_header', 'read_variant_headers(include_padding=True)',
